@@ -173,12 +173,11 @@ def strContains (s sub : String) : Bool :=
   let b := sub.toList
   (List.range (a.length + 1)).any fun i => (a.drop i).take b.length == b
 
-/-- Python `"null" in field_type` as evaluated by `write_record` on the *parsed* field type:
-    substring test for a string, element test for a list, key test for a dict. -/
+/-- `_accepts_null(field_type)` of `write_record`: the type is null (either spelling) or a union with a
+    null branch -/
 def Schema.nullIn : Schema → Bool
-  | .prim p false _ => strContains p.name "null"
-  | .ref n => strContains n "null"
+  | .prim .null _ _ => true
   | .union bs => bs.any fun b => match b with
-      | .prim .null false _ => true
+      | .prim .null _ _ => true
       | _ => false
   | _ => false
